@@ -2,7 +2,15 @@
 
 spec/Aggregator/Aggregator.tla enumerates source scripts, consumer accesses and completion orders lazily; every
 edge of the dumped state graphs is replayed on the real cocls::generator_aggregator over scripted source generators
-by harness/aggregator_replay.cpp (each path in several consumer implementations / access styles)."""
+by harness/aggregator_replay.cpp (each path in several consumer implementations / access styles).
+
+spec/Aggregator/AggregatorConc.tla is the same component with asynchronous sources that complete CONCURRENTLY on their own
+threads and the consumer on its own thread, at the grain of the critical sections of the aggregate's internal queue (one
+action per critical section / per piece of code after an unlock, per-thread program counters); the C14 invariants are
+Aggregator.tla's (INSTANCE), checked over all interleavings together with lock discipline, conservation, no stuck state
+and termination.  Its graph is replayed on real threads under the controlled scheduler with the queue's mutex virtual
+by harness/aggregator_conc_replay.cpp (conc_replay below, both tiers): every thread's pending operation and the guarded
+state are compared after every step."""
 import os
 import threading
 
@@ -94,8 +102,10 @@ def conc_replay(ctx, tag="conc", max_paths_quick=None, sources=(2, 3)):
         def hdr(k, st0, ns=ns):
             b, n = styles[k % len(styles)]
             return {"ns": ns, "bstyle": b, "nstyle": n}
+        # (without blocking accesses the consumer's thread never sits in _block.wait)
+        must = [a for a in CONC_ACTIONS if a != "Wake" or '"b"' in consts.get("Classes", '"b"')]
         graph_replay(ctx, "Aggregator", "AggregatorConc", "AggregatorConc.cfg", jtag, rpc, conc_proj, header_fn=hdr,
-                     must_take=CONC_ACTIONS, max_paths=cap, constants={k: str(v) for k, v in consts.items()},
+                     must_take=must, max_paths=cap, constants={k: str(v) for k, v in consts.items()},
                      tlc_kw={"workers": 4})
     if not q and 3 in sources:
         # three sources with the full alphabet and one more access: the specification alone (all invariants, termination)
